@@ -64,6 +64,28 @@ def Handle.isBlk : Handle → Bool
   | .blk _ => true
   | _ => false
 
+/-- slot layout used by the drivers: 16 variables (4 String, 4 Variant, 4 Xml::Variant, 4 Ptr),
+    then per thread two scratch slots: `tmpU tid` = a named temporary object of the C++ code,
+    `tmpT tid` = the reference taken by an increment that has not yet been stored in the
+    destination ("in flight") -/
+def nVars : Nat := 16
+def nThreads : Nat := 4
+def nSlots : Nat := nVars + 2 * nThreads
+def tmpU (tid : Nat) : Nat := nVars + 2 * tid
+def tmpT (tid : Nat) : Nat := nVars + 2 * tid + 1
+
+
+/-- the handle embedded in payload block `b` (the `next` pointer of a RefCount object, the String inside a
+    box) is slot `embSlot b` -/
+def embBase : Nat := nSlots
+def maxBlocks : Nat := 232
+def nTotal : Nat := embBase + maxBlocks
+def embSlot (b : Nat) : Nat := embBase + b
+
+def Pc.notWriting : Pc → Bool
+  | .writing _ _ => false
+  | _ => true
+
 /-- the atomic steps -/
 inductive Act
   | inc (t src : Nat)                       -- copy the handle of slot src into the empty slot t; `Atomic::increment(data->ref)` when it is counted
@@ -76,19 +98,64 @@ inductive Act
   | swap (a b : Nat)                        -- exchange two handles (RefCount::Ptr::swap)
   | setInl (d tag : Nat) (val : List Nat)   -- inline value into the empty slot d (thread-local)
   | give (v tid' : Nat)                     -- hand the C++ object in slot v over to another thread
+  -- handles embedded in a payload block c (slot `embSlot c`), used by threads that do not own that slot:
+  | incE (t c v : Nat)                      -- copy the embedded handle of c into the empty own slot t (+ increment); the thread
+                                            --   holds block c through its own slot v (a shared payload is read-only)
+  | takeE (t c v : Nat)                     -- move the embedded handle of c into the empty own slot t: only the sole owner of c
+  | putE (c t v : Nat)                      -- move the own slot t into the empty embedded slot of c: only the sole owner of c
+  | takeF (t c : Nat)                       -- the thread that is releasing c takes the embedded handle out (destructor of c)
 deriving Repr
+
+/-- copy the handle in slot src into slot t, incrementing the counter of a counted block -/
+def doInc (s : St) (t src : Nat) : St :=
+  match s.slots src with
+  | .blk b =>
+    match s.heap b with
+    | some blk => { s with heap := upd s.heap b (some { blk with ref := blk.ref + 1 }),
+                           slots := upd s.slots t (.blk b) }
+    | none => { s with viol := s.viol + 1 }
+  | h => { s with slots := upd s.slots t h }
+
+/-- thread-local pointer move: slot d takes the handle of slot t, t becomes empty -/
+def doMove (s : St) (d t : Nat) : St := { s with slots := upd (upd s.slots d (s.slots t)) t .none }
+
+def soleVia (s : St) (tid v c : Nat) : Prop :=
+  v < s.n ∧ s.owner v = tid ∧ s.slots v = .blk c ∧ ∃ blk, s.heap c = some blk ∧ blk.ref = 1
+
+instance (s : St) (tid v c : Nat) : Decidable (soleVia s tid v c) := by
+  unfold soleVia
+  cases h : s.heap c with
+  | none => exact isFalse (by rintro ⟨_, _, _, blk, hb, _⟩; cases hb)
+  | some blk =>
+    exact decidable_of_iff (v < s.n ∧ s.owner v = tid ∧ s.slots v = .blk c ∧ blk.ref = 1)
+      ⟨fun ⟨a, b, c', d⟩ => ⟨a, b, c', blk, rfl, d⟩, fun ⟨a, b, c', blk', hb, d⟩ => by
+        injection hb with hb; subst hb; exact ⟨a, b, c', d⟩⟩
 
 /-- one atomic step of thread `tid`; `none` = the step is not possible (rejected op) -/
 def astep (s : St) (tid : Nat) : Act → Option St
   | .inc t src =>
     if t < s.n ∧ src < s.n ∧ s.owner t = tid ∧ s.owner src = tid ∧ s.pc tid = .idle ∧ (s.slots t).isBlk = false then
-      match s.slots src with
-      | .blk b =>
-        match s.heap b with
-        | some blk => some { s with heap := upd s.heap b (some { blk with ref := blk.ref + 1 }),
-                                    slots := upd s.slots t (.blk b) }
-        | none => some { s with viol := s.viol + 1 }
-      | h => some { s with slots := upd s.slots t h }
+      some (doInc s t src)
+    else none
+  | .incE t c v =>
+    if t < s.n ∧ embSlot c < s.n ∧ s.owner t = tid ∧ s.pc tid = .idle ∧ (s.slots t).isBlk = false ∧
+       (s.pc (s.owner (embSlot c))).notWriting = true ∧ v < s.n ∧ s.owner v = tid ∧ s.slots v = .blk c then
+      some (doInc s t (embSlot c))
+    else none
+  | .takeE t c v =>
+    if t < s.n ∧ embSlot c < s.n ∧ t ≠ embSlot c ∧ s.owner t = tid ∧ s.pc tid = .idle ∧ (s.slots t).isBlk = false ∧
+       (s.pc (s.owner (embSlot c))).notWriting = true ∧ soleVia s tid v c then
+      some (doMove s t (embSlot c))
+    else none
+  | .putE c t v =>
+    if t < s.n ∧ embSlot c < s.n ∧ t ≠ embSlot c ∧ s.owner t = tid ∧ s.pc tid = .idle ∧ (s.slots (embSlot c)).isBlk = false ∧
+       (s.pc (s.owner (embSlot c))).notWriting = true ∧ soleVia s tid v c then
+      some (doMove s (embSlot c) t)
+    else none
+  | .takeF t c =>
+    if t < s.n ∧ embSlot c < s.n ∧ t ≠ embSlot c ∧ s.owner t = tid ∧ s.pc tid = .freeing c ∧ (s.slots t).isBlk = false ∧
+       (s.pc (s.owner (embSlot c))).notWriting = true then
+      some (doMove s t (embSlot c))
     else none
   | .dec t =>
     if t < s.n ∧ s.owner t = tid ∧ s.pc tid = .idle then
@@ -138,7 +205,7 @@ def astep (s : St) (tid : Nat) : Act → Option St
     | .freeing _ => none
   | .move d t =>
     if d < s.n ∧ t < s.n ∧ d ≠ t ∧ s.owner d = tid ∧ s.owner t = tid ∧ s.pc tid = .idle ∧ (s.slots d).isBlk = false then
-      some { s with slots := upd (upd s.slots d (s.slots t)) t .none }
+      some (doMove s d t)
     else none
   | .swap a b =>
     if a < s.n ∧ b < s.n ∧ s.owner a = tid ∧ s.owner b = tid ∧ s.pc tid = .idle then
@@ -176,16 +243,6 @@ def runSched (s : St) : List (Nat × Act) → Option St
     | none => none
 
 /-! ### API calls as step sequences -/
-
-/-- slot layout used by the drivers: 16 variables (4 String, 4 Variant, 4 Xml::Variant, 4 Ptr),
-    then per thread two scratch slots: `tmpU tid` = a named temporary object of the C++ code,
-    `tmpT tid` = the reference taken by an increment that has not yet been stored in the
-    destination ("in flight") -/
-def nVars : Nat := 16
-def nThreads : Nat := 4
-def nSlots : Nat := nVars + 2 * nThreads
-def tmpU (tid : Nat) : Nat := nVars + 2 * tid
-def tmpT (tid : Nat) : Nat := nVars + 2 * tid + 1
 
 inductive ApiOp
   -- String
@@ -243,12 +300,6 @@ def tagVArr : Nat := 14
 def tagVMap : Nat := 15
 def tagObj : Nat := 30
 
-/-- the handle embedded in payload block `b` (RefCount object with a `next` pointer) is slot `embSlot b`;
-    single-threaded histories own these slots like every other slot -/
-def embBase : Nat := nSlots
-def maxBlocks : Nat := 232
-def nTotal : Nat := embBase + maxBlocks
-def embSlot (b : Nat) : Nat := embBase + b
 
 def lowerByte (c : Nat) : Nat := if 65 ≤ c ∧ c ≤ 90 then c + 32 else c
 
@@ -300,13 +351,16 @@ def boxAssign (st : St) (tid d s : Nat) : List Act :=
 /-- release of a RefCount::Ptr slot: when it is the last handle of an object, the destructor of the
     object releases the embedded `next` handle (child first here; single-threaded the order of
     the two decrements is not observable) -/
-def relP (st : St) (d : Nat) : Nat → List Act
+def relP (st : St) (tid d : Nat) : Nat → List Act
   | 0 => rel d
   | fuel + 1 =>
     match st.slots d with
     | .blk b =>
       match st.heap b, st.slots (embSlot b) with
-      | some blk, .blk _ => if blk.ref = 1 then relP st (embSlot b) fuel ++ rel d else rel d
+      | some blk, .blk _ =>
+        -- a thread that does not own the embedded slot releases it with `takeF` after its decrement
+        -- reached zero (the drivers insert those steps when they see the `freeing` state)
+        if blk.ref = 1 ∧ st.owner (embSlot b) = tid then relP st tid (embSlot b) fuel ++ rel d else rel d
       | _, _ => rel d
     | _ => rel d
 
@@ -317,9 +371,17 @@ def ptrAssign (st : St) (tid d src : Nat) : List Act :=
   match st.slots src with
   | .blk _ =>
     match astep st tid (.inc (tmpT tid) src) with
-    | some st1 => [.inc (tmpT tid) src] ++ relP st1 d relFuel ++ [.move d (tmpT tid)]
+    | some st1 => [.inc (tmpT tid) src] ++ relP st1 tid d relFuel ++ [.move d (tmpT tid)]
     | none => [.inc (tmpT tid) src]
-  | _ => relP st d relFuel
+  | _ => relP st tid d relFuel
+
+/-- `d = v->next`: the handle embedded in the object that the own slot v designates is copied -/
+def ptrAssignEmb (st : St) (tid d c v : Nat) : List Act :=
+  match astep st tid (.incE (tmpT tid) c v) with
+  | some st1 => [.incE (tmpT tid) c v] ++ relP st1 tid d relFuel ++ [.move d (tmpT tid)]
+  | none => [.incE (tmpT tid) c v]
+
+def blkOf (st : St) (d : Nat) : Option Nat := match st.slots d with | .blk b => some b | _ => none
 
 def embOf (st : St) (d : Nat) : Option Nat := match st.slots d with | .blk b => some (embSlot b) | _ => none
 
@@ -384,23 +446,23 @@ def pre (st : St) (tid : Nat) : ApiOp → List Act
   | .xClear d => rel d
   | .xSetStr d _ => [.readRef d (blkTag st d == some tagXText)]
   | .xElem d _ => [.readRef d (blkTag st d == some tagXElem)]
-  | .pNew d x => [.alloc (tmpT tid) tagObj [x] 0] ++ relP st d relFuel ++ [.move d (tmpT tid)]
+  | .pNew d x => [.alloc (tmpT tid) tagObj [x] 0] ++ relP st tid d relFuel ++ [.move d (tmpT tid)]
   | .pCopy d s =>
     if d = s then [] else
-    relP st d relFuel ++ (match st.slots s with
+    relP st tid d relFuel ++ (match st.slots s with
       | .blk _ => [.inc d s]
       | _ => [])
   | .pAssign d s => ptrAssign st tid d s
-  | .pClear d => relP st d relFuel
+  | .pClear d => relP st tid d relFuel
   | .pSwap a b => [.swap a b]
   | .pLink d s => match embOf st d with
     | some e => ptrAssign st tid e s
     | none => [.move d d]            -- null pointer dereference: rejected
-  | .pNext d => match embOf st d with
-    | some e => ptrAssign st tid d e
+  | .pNext d => match blkOf st d with
+    | some c => ptrAssignEmb st tid d c d
     | none => [.move d d]
-  | .pNextOf d s => match embOf st s with
-    | some e => ptrAssign st tid d e
+  | .pNextOf d s => match blkOf st s with
+    | some c => ptrAssignEmb st tid d c s
     | none => [.move d d]
 
 def isWriting (st : St) (tid : Nat) : Bool := match st.pc tid with | .writing _ _ => true | _ => false
